@@ -244,6 +244,52 @@ pub use types::*;
 pub use validation::{ValidationMode, ValidationResult, VisitorContext};
 pub use validators::CustomValidator;
 
+/// Deterministic work counters for the verification harness (only with
+/// `--cfg async_graphql_verif`; never part of a normal build).
+#[cfg(async_graphql_verif)]
+#[doc(hidden)]
+pub mod __verif {
+    use std::sync::atomic::{AtomicU64, Ordering};
+
+    /// `validation::visit` passes started in `VisitMode::Normal`.
+    pub const PASS_NORMAL: usize = 0;
+    /// `validation::visit` passes started in `VisitMode::Inline`.
+    pub const PASS_INLINE: usize = 1;
+    /// `visit_selection` calls of normal-mode passes.
+    pub const SEL_NORMAL: usize = 2;
+    /// `visit_selection` calls of inline-mode passes.
+    pub const SEL_INLINE: usize = 3;
+    /// Selections iterated by `check_recursive_depth`.
+    pub const DEPTH_SEL: usize = 4;
+    /// Selections iterated by `check_max_directives`.
+    pub const DIRECTIVES_SEL: usize = 5;
+    /// Selections iterated by `OverlappingFieldsCanBeMerged`.
+    pub const OVERLAP_SEL: usize = 6;
+    /// Field pairs compared by `OverlappingFieldsCanBeMerged`.
+    pub const OVERLAP_CMP: usize = 7;
+    /// Number of counters.
+    pub const N: usize = 8;
+
+    static COUNTERS: [AtomicU64; N] = [const { AtomicU64::new(0) }; N];
+
+    #[inline]
+    pub(crate) fn bump(counter: usize) {
+        COUNTERS[counter].fetch_add(1, Ordering::Relaxed);
+    }
+
+    /// Current values of all counters.
+    pub fn counters() -> [u64; N] {
+        std::array::from_fn(|i| COUNTERS[i].load(Ordering::Relaxed))
+    }
+
+    /// Set all counters to zero.
+    pub fn reset() {
+        for counter in &COUNTERS {
+            counter.store(0, Ordering::Relaxed);
+        }
+    }
+}
+
 /// An alias of [async_graphql::Error](struct.Error.html). Present for backward
 /// compatibility reasons.
 pub type FieldError = Error;
